@@ -136,7 +136,8 @@ fn build_inst(inst: &Inst) -> Result<Box<dyn DynGen>, String> {
 fn do_op(g: &mut Box<dyn DynGen>, op: &Op, log: &mut Digest) -> Result<(), String> {
     if g.kind() == Kind::Jitter {
         let r = g.jitter_ref().unwrap().reads();
-        g.jitter_ref().unwrap().set_cap(r + 60_000);
+        let bulk = if let Op::Fill(n) = op { 8 * *n as u64 } else { 0 };
+        g.jitter_ref().unwrap().set_cap(r + 60_000 + bulk);
     }
     let r: Result<Option<Out>, SutFail> = match op {
         Op::U32 => super::c05::do_call(g.as_mut(), Call::U32).map(Some),
@@ -549,8 +550,7 @@ pub fn proc_main(mode: &str, arg: &str) -> i32 {
     let mut txt = String::new();
     std::io::Read::read_to_string(&mut std::io::stdin(), &mut txt).expect("stdin");
     let spec: Spec = serde_json::from_str(&txt).expect("spec");
-    crate::gens::set_call_generic(spec.generic);
-    crate::gens::set_place(spec.place);
+    crate::engine::set_run_environment(&spec);
     if mode == "alone" {
         let i: usize = arg.parse().expect("index");
         println!("{}", fmt_results(&[run_alone(&spec, i)]));
@@ -693,6 +693,27 @@ impl Scenario for C19 {
             spec.aux = vec![800, 4, rng.u64()];
             return spec;
         }
+        if rng.chance(1, 100) {
+            // census: one JitterRng brings the number of collections made IN THIS PROCESS to just below 2^16
+            // (one bulk request at one round per collection), a second one then makes a few dozen - with a
+            // logger that accepts everything. Alone in its process the second one is nowhere near that count:
+            // anything keyed on a process-wide tally of operations (rate-limited reporting, periodic self
+            // tests, reseeding policies) falls inside its history here and outside there
+            spec.variant = "schedule".into();
+            spec.logger = true;
+            let k = rng.below(40) as u32;
+            let filler = Inst { kind: Kind::Jitter, seed: None, clock: Some(gen_plain_clock(rng, 200)), rounds: Some(1), ops: vec![Op::Fill(8 * (65_536 - k))], shared_scratch: false };
+            let a_ops: Vec<Op> = (0..rng.range(45, 60)).map(|_| if rng.chance(1, 4) { Op::U32 } else { Op::U64 }).collect();
+            let a = Inst { kind: Kind::Jitter, seed: None, clock: Some(gen_plain_clock(rng, 600)), rounds: Some(rng.range(1, 3) as u8), ops: a_ops, shared_scratch: false };
+            spec.threads = rng.range(1, 2) as u8;
+            let mut sched = vec![(0u8, 0u8)];
+            for _ in 0..a.ops.len() {
+                sched.push((1, rng.below(spec.threads as u64) as u8));
+            }
+            spec.sched = sched;
+            spec.insts = vec![filler, a];
+            return spec;
+        }
         if rng.chance(1, 14) {
             // scratch family: two to four public block CORES of one type, all driven through the one scratch
             // block their owner keeps for that type; each produces several blocks, interleaved block by
@@ -783,6 +804,8 @@ impl Scenario for C19 {
             return spec;
         }
         spec.variant = "schedule".into();
+        // the process's logging configuration (a logger that accepts everything) must not couple instances either
+        spec.logger = rng.chance(1, 4);
         let n = rng.range(2, 6) as usize;
         // same-type, same-seed instances are likely to collide in a shared cache: bias towards them
         let mut insts: Vec<Inst> = Vec::new();
@@ -1035,7 +1058,7 @@ impl Scenario for C19 {
     }
 
     fn rule(&self) -> String {
-        "Static: Send and Sync of the 19 deterministic generator types, the 3 cores, JitterRng<fn() -> u64>, evaluated at compile time by inherent-const shadowing. Dynamic, per run: 2..6 generator instances of mixed types (deterministic generators through every seeding route with zero seeds / seed_from_u64(0) over-weighted, duplicates of the same type and seed, JitterRng instances each over its own scripted clock), each with its own history of next_u32/next_u64/fill_bytes/jump/clone (JitterRng instances sometimes start with test_timer on their own clock), and 1..4 worker threads. The seeded scheduler repeatedly picks (instance, thread): ownership of the instance is MOVED to that OS thread, which performs exactly one operation and hands the baton back (never more than one runnable thread, so the interleaving replays exactly); schedule styles: round robin, uniform, bursts; thread migrations; disturbances between steps (unrelated generators created/seeded/dropped incl. the zero-seed remap and SplitMix64 expansion, block generators run across a refill, JitterRng::new() which touches the process-wide JITTER_ROUNDS cache). The interleaved run executes in its own fresh process; every instance is also run ALONE in its own fresh process, and all instances under sequential and reverse-sequential composition in one further process each; per-instance output digests must be identical in all of them. distinct_nontrivial = distinct (instance, thread) sequences with at least one interleave and one migration (plus one signature per type of the static table). Further: block generators also take part as their public CORE driven through one scratch block shared by all cores of that type (scratch family: 2..4 such cores, several blocks each, interleaved); JitterRng instances are cloned inside schedules; a disturbance clones/clone_froms/formats an unrelated JitterRng; duplicates of a JitterRng instance get a private clock 1..64 ticks ahead of / behind the original's; one JitterRng instance in three counts in steps of q; one run in ten consists of JitterRng instances only; (nested) the same operations of one JitterRng run once on their own and once each from inside a timer reading of another JitterRng's collection on the same thread.".into()
+        "Static: Send and Sync of the 19 deterministic generator types, the 3 cores, JitterRng<fn() -> u64>, evaluated at compile time by inherent-const shadowing. Dynamic, per run: 2..6 generator instances of mixed types (deterministic generators through every seeding route with zero seeds / seed_from_u64(0) over-weighted, duplicates of the same type and seed, JitterRng instances each over its own scripted clock), each with its own history of next_u32/next_u64/fill_bytes/jump/clone (JitterRng instances sometimes start with test_timer on their own clock), and 1..4 worker threads. The seeded scheduler repeatedly picks (instance, thread): ownership of the instance is MOVED to that OS thread, which performs exactly one operation and hands the baton back (never more than one runnable thread, so the interleaving replays exactly); schedule styles: round robin, uniform, bursts; thread migrations; disturbances between steps (unrelated generators created/seeded/dropped incl. the zero-seed remap and SplitMix64 expansion, block generators run across a refill, JitterRng::new() which touches the process-wide JITTER_ROUNDS cache). The interleaved run executes in its own fresh process; every instance is also run ALONE in its own fresh process, and all instances under sequential and reverse-sequential composition in one further process each; per-instance output digests must be identical in all of them. distinct_nontrivial = distinct (instance, thread) sequences with at least one interleave and one migration (plus one signature per type of the static table). Further: block generators also take part as their public CORE driven through one scratch block shared by all cores of that type (scratch family: 2..4 such cores, several blocks each, interleaved); JitterRng instances are cloned inside schedules; a disturbance clones/clone_froms/formats an unrelated JitterRng; duplicates of a JitterRng instance get a private clock 1..64 ticks ahead of / behind the original's; one JitterRng instance in three counts in steps of q; one run in ten consists of JitterRng instances only; (nested) the same operations of one JitterRng run once on their own and once each from inside a timer reading of another JitterRng's collection on the same thread. Schedules run under a logger that accepts every record one time in four; census family: one JitterRng brings the process to 2^16 - k collections (k < 40) in one bulk request, a second one then makes 45..60.".into()
     }
     fn assumptions(&self) -> Vec<String> {
         vec![
